@@ -209,8 +209,10 @@ func c15DedupSort(p *chk.Prog, r *chk.Report) {
 	}) {
 		cond := g.GPat(true, "A.LocalPref != 0", chk.H("A", adv))
 		ok := g.Dominated(s, cond)
-		for _, e := range g.EdgesImplying(cond) {
-			if c, isE := e.B.Nodes[len(e.B.Nodes)-1].(ast.Expr); !isE || f.MatchNew("A.LocalPref != 0", c) == nil {
+		// and nothing else decides: an advertisement with a local preference that is processed to the end is associated
+		st := s
+		for _, e := range g.LoopIteration(advLoop, chk.GOr(chk.GNot(cond), chk.GEvent(func(n ast.Node) bool { return n == st.Top }))) {
+			if !e.OK && !e.Break {
 				ok = false
 			}
 		}
@@ -342,7 +344,7 @@ func c15Password(p *chk.Prog, r *chk.Report) {
 				g.Dominated(rt, g.GPat(true, "T == bgpFrrK8s", chk.H("T", isParamIdx(pf, 1))))
 			x.Check("passwordForSession:return#"+itoa(n)+":secret-ref-only-in-passthrough", rt.Pos(), ok, "", "a secret reference is handed to a BGP back end outside frr-k8s pass-through mode, or together with the converted plain-text password")
 		}
-		x.Check("passwordForSession:returns", pf.Pos(), n >= 5, "", "fewer returns than on the confirmed tree")
+		x.Check("passwordForSession:returns", pf.Pos(), n >= 2, "", "passwordForSession has no result both with and without a secret reference")
 	}
 }
 
